@@ -174,10 +174,24 @@ crc_op(int argc, char **argv)
     } else if (strcmp(op, "crc.u16") == 0 && argc == 3) {
         size_t n; unsigned char *buf = parse_hex(argv[2], &n);
         if (!buf) { printf("bad-op"); return; }
-        uint16_t *w = malloc((n / 2) * 2 ? (n / 2) * 2 : 2);
-        memcpy(w, buf, (n / 2) * 2);
-        snprintf(out, sizeof out, "%04x", ufw_crc16_arc_u16((uint16_t)strtoul(argv[1], NULL, 16), w, n / 2));
-        free(w); free(buf);
+        /* the word variant at every word-aligned start address modulo 8 (data ends at the end of an exact-size
+         * block), and continued in place after every prefix */
+        uint16_t init = (uint16_t)strtoul(argv[1], NULL, 16);
+        size_t wn = n / 2;
+        uint16_t ref = 0; int dep = 0;
+        for (unsigned a = 0; a < 8; a += 2) {
+            unsigned char *blk = malloc(wn * 2 + a ? wn * 2 + a : 2);
+            uint16_t *w = (uint16_t *)(void *)(blk + a);
+            if (wn) memcpy(w, buf, wn * 2);
+            uint16_t v = ufw_crc16_arc_u16(init, w, wn);
+            if (a == 0) ref = v; else if (v != ref && !dep) dep = 1 + (int)a;
+            for (size_t k = 0; k <= wn && !dep; k++)
+                if (ufw_crc16_arc_u16(ufw_crc16_arc_u16(init, w, k), w + k, wn - k) != v) dep = 100 + (int)k;
+            free(blk);
+        }
+        if (dep) snprintf(out, sizeof out, "%04x depends-on-alignment-or-split:%d", ref, dep);
+        else snprintf(out, sizeof out, "%04x", ref);
+        free(buf);
     } else if (strcmp(op, "crc.initial") == 0 && argc == 2) {
         size_t n; unsigned char *buf = parse_hex(argv[1], &n);
         if (!buf) { printf("bad-op"); return; }
